@@ -58,7 +58,7 @@ BASE_CMD = ('cd /repo && /venv/bin/python -m pytest -ra -q -p no:cacheprovider -
 
 
 # properties whose check is finished (quiet on the unchanged tree at several seeds, mutants run)
-READY = ['C01', 'C02', 'C03', 'C04', 'C05', 'C06', 'C07', 'C08', 'C13', 'C14', 'C15', 'C16', 'C17', 'C18', 'C19', 'C20']
+READY = ['C%02d' % i for i in range(1, 21)]
 
 
 def main():
